@@ -1,7 +1,7 @@
 # Per-property metadata for ./check and gen_manifest.py: which worker build,
 # budgets, evidence texts, level claims.
 
-HOOK_COMMITS = ["5b23384"]
+HOOK_COMMITS = ["e6ca9ab"]
 
 REAL_A = ["package serf (all of it)", "memberlist v0.5.4 (passive: probe/gossip/push-pull timers off; stream join real)", "go-msgpack"]
 SIM_A = ["network (simnet: in-memory packets, net.Pipe streams)", "clock (testing/synctest fake clock)",
@@ -153,6 +153,9 @@ PROPS["C15"] = A("cases are seeded histories over 1-5 ghost members seen by one 
 PROPS["C16"] = A("as C15, with the event pipeline in all four configurations (snapshot on/off x member coalescing on/off), application channel sizes 1/8/64/4096 and a consumer that only drains at seeded points (so the snapshot tee drops when the channel is full); distinct = distinct step-list hash; non-trivial = at least one stimulus",
     "Seeded exploration on the fake clock. The model sequence of each member's status changes is read from Members() after every step; the events the application receives for a member must be an in-order subsequence of it, and when the application channel was never full the last event received equals the latest change. Exact replay.",
     quick=(3000, 45), thorough=(150000, 900))
+PROPS["C09"] = A("cases are seeded sequences of adversarial network inputs to one real node (keyring on/off, 0-2 known members, one open query): structure-aware queries with empty/nil/undecodable filters, internal key and conflict queries with empty and garbage payloads, every message type with field-level type confusion (msgpack maps with the expected field names and arbitrary values), raw byte noise, responses, relay envelopes, push/pull states with nil maps and nil event slots, probe-ack payloads, member metadata up to 600 bytes through NotifyJoin/NotifyUpdate/NotifyMerge/NotifyAlive; distinct = distinct step-list hash; non-trivial = at least one input",
+    "Seeded exploration (corruption as the fault kind). Oracle: the worker process survives (a panic in a goroutine the node spawned kills the worker and is attributed to the run; a panic on the delegate call itself is caught and reported), State() stays alive, and afterwards a fresh user event is delivered, a fresh query is acknowledged and Members() is readable. Each crash replays exactly.",
+    quick=(4000, 45), thorough=(300000, 900))
 PROPS["C14"] = D("cases are seeded histories against a real Serf node whose snapshot lives on simfs: user events and queries delivered by gossip and push/pull, real joins (with/without ignoreOld) against a real peer holding events, fake-time advances around the 500 ms flush interval, and 1-3 restarts (crash: only bytes already handed to the OS survive; or clean shutdown) followed by old and new messages; distinct = distinct step-list hash; non-trivial = messages injected after a restart",
     "Seeded exploration; E and Q are read by the real recovery from the image the restart starts from; any user event with time <= E or query with time <= Q on the application channel after the restart is a violation. Exact replay.",
     quick=(2500, 60), thorough=(100000, 1200),
